@@ -1399,8 +1399,12 @@ class FileSet:
                 file_iterator, key=lambda x: (x.times[0], x.times[1])
             )
 
+        def output(file):
+            # The user may want to have only the paths of the files:
+            return file.path if only_path else file
+
         if bundle_size is None:
-            yield from file_iterator
+            yield from map(output, file_iterator)
             return
 
         # The argument bundle was defined. Either it sets the bundle size
@@ -1409,7 +1413,7 @@ class FileSet:
             files = list(file_iterator)
 
             yield from (
-                files[i:i + bundle_size]
+                [output(file) for file in files[i:i + bundle_size]]
                 for i in range(0, len(files), bundle_size)
             )
         elif isinstance(bundle_size, str):
@@ -1427,7 +1431,7 @@ class FileSet:
                 [file.times[0] for file in files]
             )
             yield from (
-                bundle[1].values.tolist()
+                [output(file) for file in bundle[1].values.tolist()]
                 for bundle in time_series.groupby(
                     pd.Grouper(freq=bundle_size))
                 if bundle[1].any()
